@@ -48,6 +48,43 @@ type Site struct {
 	Note string `json:"note"`
 }
 
+// siteOrdinal is the index of a site among the sites of the same kind in the same function.
+func (e *Env) siteOrdinal(s Site) int {
+	n := 0
+	for _, x := range e.SiteList {
+		if x.Func == s.Func && x.Kind == s.Kind && x.ID < s.ID {
+			n++
+		}
+	}
+	return n
+}
+
+// remapSites rewrites site ids of a replayed plan to the numbering of this build.
+func (e *Env) remapSites(p *plan.Plan) (remapped int) {
+	if len(p.SiteTable) == 0 || len(p.MapOrder.Sites) == 0 {
+		return 0
+	}
+	out := map[string]string{}
+	for id, mode := range p.MapOrder.Sites {
+		ref, ok := p.SiteTable[id]
+		newID := id
+		if ok {
+			for _, x := range e.SiteList {
+				if x.Func == ref.Func && x.Kind == ref.Kind && e.siteOrdinal(x) == ref.Ordinal {
+					newID = fmt.Sprint(x.ID)
+					break
+				}
+			}
+		}
+		if newID != id {
+			remapped++
+		}
+		out[newID] = mode
+	}
+	p.MapOrder.Sites = out
+	return remapped
+}
+
 type RaceAccess struct {
 	Kind   string   `json:"kind"`
 	Frames []string `json:"frames"` // "func file:line"
